@@ -60,6 +60,56 @@ static void run_random(long nsteps) {
   LOG.sample(JObj().str("kind", "random history (last operations)").raw("ops", jarrs(std::vector<std::string>(HISTORY.end() - (long)std::min<size_t>(HISTORY.size(), 14), HISTORY.end()))).done());
 }
 
+// ------------------------------------------------------------------ many handles (C12) and large vectors (C11): count / size thresholds
+template <class S> static void many_handles(int n) {
+  Model<S> m; Ops<S> o(m);
+  const std::string P = ST<S>::name();
+  std::vector<std::string> hs;
+  for (int i = 0; i < n; i++) {
+    // handle names of growing length and mixed characters; every handle holds a distinctive value on one of its parameters
+    std::string h = "many-" + std::to_string(i) + std::string((size_t)(i % 97), "xyZ_ -"[i % 6]);
+    o.init(h, SOLS[(size_t)R->below((int)SOLS.size())]);
+    hs.push_back(h);
+    std::string pn = o.pick_name();
+    if (!pn.empty() && !(m.cur().sol == "sod_1d" && !kExceptions)) {
+      S v = (S)(1000.0L + i + R->uni(0.0L, 0.5L));
+      CAP.begin(); masa_set_param<S>(pn, v); CAP.end();
+      m.cur().sc[pn] = v; m.cur().version = next_version();
+    }
+    if (i % 64 == 63) compare_identity(m, "C12", "many handles: after " + std::to_string(i + 1) + " inits");
+  }
+  // visit every handle in a random order: name, dimension, the whole parameter snapshot
+  for (size_t i = hs.size(); i > 1; i--) std::swap(hs[i - 1], hs[(size_t)R->below((int)i)]);
+  for (size_t i = 0; i < hs.size(); i++) {
+    o.select(hs[i]);
+    if (i % 16 == 0) { o.eval(); }
+  }
+  // re-initialise a tenth of them with other solution types, then visit everything again
+  for (int i = 0; i < n / 10; i++) o.init(hs[(size_t)R->below((int)hs.size())], SOLS[(size_t)R->below((int)SOLS.size())]);
+  o.checkpoint();
+  LOG.count("many_handles_registered", n);
+}
+template <class S> static void large_vectors() {
+  Model<S> m; Ops<S> o(m);
+  o.init("big", "radiation_integrated_intensity");
+  auto& in = m.cur();
+  for (int len : {1000, 100000, 3, 65536, 0, 25}) {
+    for (const char* n : {"vec_amp", "vec_mean", "vec_stdev"}) {
+      std::vector<S> v((size_t)len);
+      for (auto& x : v) x = (S)(n[4] == 'a' ? R->uni(1.0L, 10.0L) : n[4] == 'm' ? R->uni(0.0L, 1.0L) : R->uni(0.02L, 0.5L));
+      hist(std::string("masa_set_vec<") + o.P + ">(\"" + n + "\",len " + std::to_string(len) + ") [large vectors]");
+      CAP.begin(); masa_set_vec<S>(n, v); CAP.end();
+      in.vec[n] = v; in.version = next_version(); m.recent[m.sel].clear();
+    }
+    compare_selected(m, "C11", "set_vec-leak", "after setting three vectors of length " + std::to_string(len));
+    o.sanity();
+    if (len > 0) { o.eval(ev_index("source_u/S1")); o.eval(ev_index("exact_u/S1")); }
+    LOG.count("large_vector_lengths", 1);
+  }
+  o.init_param();
+  o.eval(ev_index("source_u/S1"));
+}
+
 // ------------------------------------------------------------------ C11 systematic sweep
 template <class S> static void sweep() {
   Model<S> m; Ops<S> o(m);
@@ -225,7 +275,8 @@ int main(int argc, char** argv) {
   // and one coordinate exactly 0 in two of them; all double-representable so both precisions see the same arguments
   { int k = 0; for (auto& p : POOL) { for (auto& c : p) c = (long double)(double)(k < 16 ? r.uni(0.1L, 1.9L) : k < 24 ? r.uni(-2.0L, 2.0L) : powl(10.0L, r.uni(-3.0L, 0.0L))); if (k >= 30) p[r.below(4)] = 0; k++; } }
   if (mode == "random") run_random(n);
-  else if (mode == "sweep") { sweep<double>(); sweep<long double>(); }
+  else if (mode == "sweep") { sweep<double>(); sweep<long double>(); large_vectors<double>(); large_vectors<long double>(); }
+  else if (mode == "many") { many_handles<double>((int)n); many_handles<long double>((int)n); }
   else if (mode == "exhaustive") run_exhaustive(atoi(getarg(argc, argv, "--maxlen", "4").c_str()), shard, atoi(getarg(argc, argv, "--parts", "1").c_str()));
   else if (mode == "preinit") { if (getarg(argc, argv, "--prec", "d") == "d") preinit<double>(); else preinit<long double>(); }
   else harness_fail("unknown mode " + mode);
